@@ -84,7 +84,7 @@ def edit_sizes(prog) -> dict:
     out = {}
     for m in prog.modules.values():
         from .desugar import desugar
-        tree = desugar(ast.parse(m.source))
+        tree = desugar(ast.parse(m.source), m.rel)
         for n in tree.body:
             items = []
             if isinstance(n, (ast.FunctionDef, ast.AsyncFunctionDef)):
@@ -379,7 +379,7 @@ class Inliner:
     def __init__(self, prog: Program):
         self.prog = prog
         from .desugar import desugar
-        self.trees = {m.rel: desugar(ast.parse(m.source, filename=m.rel)) for m in prog.modules.values()}
+        self.trees = {m.rel: desugar(ast.parse(m.source, filename=m.rel), m.rel) for m in prog.modules.values()}
         self.log: list = []
         self.counter = 0
         self.base = baseline_functions()
